@@ -62,7 +62,7 @@ var c03Markers = map[string][]marker{
 	"apache": pre("-alpha", "-beta", "-RC1", "-M1", "-SNAPSHOT", "-dev", "-rc2", "-milestone1", "-alpha1", "-BETA2"),
 	// composer: patch/pl/p are not claimed (Composer's documentation gives them no order against the plain release)
 	"composer":   pre("-alpha", "-alpha1", "-alpha.1", "-beta", "-beta2", "-RC1", "-rc1", "a1", "b1", "RC1", "-dev", "alpha", "beta1", "-RC", "-a1", "-b"),
-	"github":     pre("-alpha", "-beta", "-rc.1", ".rc1", "-dev", "-snapshot", "-rc1", "-alpha.1", "-beta2", "-RC1", ".beta"),
+	"github":     pre("-alpha", "-beta", "-rc.1", ".rc1", "-dev", "-snapshot", "-rc1", "-alpha.1", "-beta2", "-RC1", ".beta", "-pre.1", "-preview", "-nightly", "-m3", "-a1", ".b2", "-canary.1"),
 	"mattermost": pre("-rc1", "-rc", "-rc2", "-rc10"),
 	"cran":       nil,
 }
